@@ -19,10 +19,17 @@
 (***************************************************************************)
 EXTENDS Naturals, Sequences, FiniteSets
 CONSTANTS MaxCalls, MaxItems,
-          ServerAnswersOneway      \* deviation: FALSE for the repaired server
+          ServerAnswersOneway,     \* deviation: FALSE for the repaired server
+          ClientMayAbandon,        \* the client may drop a reply stream before its final reply and go on calling
+          ClientDrainsAbandoned    \* ... and then reads and discards what the abandoned call is still owed
 Kinds == {[k |-> "plain", n |-> 0], [k |-> "error", n |-> 0], [k |-> "oneway", n |-> 0]}
          \cup {[k |-> "more", n |-> n] : n \in 0..MaxItems}
 
+\* Varlink replies carry no identification of the call they answer.  A client that abandons a `more' stream
+\* (Chain.tla!Abandon: the frames it did not take stay with the connection) and then uses the connection for
+\* another exchange reads the abandoned call's remaining replies as answers to the new one - unless it drains
+\* them first.  zlink leaves that to the caller; Session_abandon.cfg lets TLC exhibit the misattribution
+\* (ClientMayAbandon, not draining) and Session_drain.cfg shows that draining restores Correspondence.
 VARIABLES calls,      \* the calls the client has sent so far, in order
           handled,    \* how many of them the server has handled
           wire,       \* replies written by the server and not yet read by the client: [call, cont]
@@ -61,7 +68,20 @@ Read == /\ wire # <<>>
         /\ wire' = Tail(wire)
         /\ UNCHANGED <<calls, handled>>
 
-Next == Send \/ Handle \/ Read
+\* the client drops the stream of the `more' call it is reading (some of its replies are still to come)
+Abandon == /\ ClientMayAbandon
+           /\ LET at == NextExpecting(calls, cur) IN
+              /\ at <= Len(calls) /\ calls[at].k = "more"
+              /\ \E x \in 1..Len(log) : log[x][1] = at          \* it has read at least one reply of it
+              /\ cur' = at
+              /\ IF ClientDrainsAbandoned
+                 THEN \* everything the call is owed is written by then and discarded unread by the application
+                      /\ handled >= at
+                      /\ wire' = SelectSeq(wire, LAMBDA r : r.call # at)
+                 ELSE UNCHANGED wire
+           /\ UNCHANGED <<calls, handled, log>>
+
+Next == Send \/ Handle \/ Read \/ Abandon
 Spec == Init /\ [][Next]_vars
 
 Correspondence == \A x \in 1..Len(log) : log[x][1] = log[x][2]
